@@ -180,6 +180,28 @@ func (w *World) verifyFunctionPass(pi *PkgInfo, fn *ssa.Function, c *Contract, r
 			t := u.evalClauseIn(env, en)
 			u.oblige(merged, "ensures", fmt.Sprintf("postcondition %d: %s", i+1, en.Text), fn.Pos(), t, en.Tag)
 		}
+		// `fresh` is a claim about the result that callers rely on: prove it
+		freshGoal := func(v Value) (Term, bool) {
+			switch x := v.(type) {
+			case Sc:
+				return And(Neq(x.T, TNil), Cmp(">=", app("objof", SInt, x.T), u.pre0Alloc())), true
+			case SliceV:
+				return And(Neq(x.Arr, TNil), Cmp(">=", app("objof", SInt, x.Arr), u.pre0Alloc())), true
+			}
+			return TTrue, false
+		}
+		if c.Fresh && len(vals) == 1 {
+			if g, ok := freshGoal(vals[0]); ok {
+				u.oblige(merged, "fresh", "the result is a newly allocated, non-nil object", fn.Pos(), g, "")
+			}
+		}
+		for idx := range c.FreshResults {
+			if idx < len(vals) {
+				if g, ok := freshGoal(vals[idx]); ok {
+					u.oblige(merged, "fresh", fmt.Sprintf("result %d is a newly allocated, non-nil object", idx), fn.Pos(), g, fmt.Sprintf("result%d", idx))
+				}
+			}
+		}
 		for i, en := range c.Lemmas {
 			t := u.evalClauseIn(env, en)
 			u.oblige(merged, "lemma", fmt.Sprintf("lemma %d: %s", i+1, en.Text), fn.Pos(), t, en.Tag)
